@@ -12,3 +12,70 @@ package types
 //@   ensures #time Time != nil && Time.Kind == KTime
 //@   ensures #top Top != nil && Top.Kind == KTop
 //@   ensures #bot Bottom != nil && Bottom.Kind == KBot
+
+//@ func Equals
+//@   props C17 C01 C05 C07 C16
+//@   requires wfT(x) && wfT(y)
+//@   nopanic
+//@   ensures #spec result == tyEq(x, y)
+
+//@ func equals
+//@   props C17 C01 C05 C07 C16
+//@   requires inProcess != nil && wfT(x) && wfT(y)
+//@   requires #memo forall(p, forall(q, inPP(inProcess, p, q) ==> tyEq(p, q) || older(x, p)))
+//@   unfold tyEq(x, y)
+//@   unfold wfT(x)
+//@   unfold wfT(y)
+//@   nopanic
+//@   modifies inProcess[*], allmaps(inProcess[0])
+//@   ensures #spec result == tyEq(x, y)
+//@   ensures #memo result ==> forall(p, forall(q, inPP(inProcess, p, q) ==> old(inPP(inProcess, p, q)) || tyEq(p, q)))
+//@   ensures #mono forall(p, forall(q, old(inPP(inProcess, p, q)) ==> inPP(inProcess, p, q)))
+
+//@ func equalsTuple
+//@   props C17 C01 C05 C07 C16
+//@   requires inProcess != nil && x != nil && y != nil && dynis(x, TupleTy) && dynis(y, TupleTy)
+//@   requires wfSeq(x.Val, x.Ty()) && wfSeq(y.Val, y.Ty())
+//@   requires #memo forall(p, forall(q, inPP(inProcess, p, q) ==> tyEq(p, q) || notyounger(x.Ty(), p)))
+//@   nopanic
+//@   modifies inProcess[*], allmaps(inProcess[0])
+//@   loop 1 invariant forall(k, 0, rangeindex+1, tyEq(x.Val[k], y.Val[k])) && len(x.Val) == len(y.Val) && xt == x && yt == y
+//@   loop 1 invariant forall(p, forall(q, inPP(inProcess, p, q) ==> old(inPP(inProcess, p, q)) || tyEq(p, q)))
+//@   loop 1 invariant forall(p, forall(q, old(inPP(inProcess, p, q)) ==> inPP(inProcess, p, q)))
+//@   ensures #spec result == tyEqSeq(x.Val, y.Val)
+//@   ensures #memo result ==> forall(p, forall(q, inPP(inProcess, p, q) ==> old(inPP(inProcess, p, q)) || tyEq(p, q)))
+//@   ensures #mono forall(p, forall(q, old(inPP(inProcess, p, q)) ==> inPP(inProcess, p, q)))
+
+//@ func equalsFun
+//@   props C17 C01 C05 C07 C16
+//@   requires inProcess != nil && x != nil && y != nil && dynis(x, FunTy) && dynis(y, FunTy)
+//@   requires wfSeq(x.Param, x.Ty()) && wfSeq(y.Param, y.Ty()) && wfT(x.Return) && wfT(y.Return) && older(x.Return, x.Ty())
+//@   requires #memo forall(p, forall(q, inPP(inProcess, p, q) ==> tyEq(p, q) || notyounger(x.Ty(), p)))
+//@   nopanic
+//@   modifies inProcess[*], allmaps(inProcess[0])
+//@   loop 1 invariant forall(k, 0, rangeindex+1, tyEq(x.Param[k], y.Param[k])) && len(x.Param) == len(y.Param)
+//@   loop 1 invariant forall(p, forall(q, inPP(inProcess, p, q) ==> old(inPP(inProcess, p, q)) || tyEq(p, q)))
+//@   loop 1 invariant forall(p, forall(q, old(inPP(inProcess, p, q)) ==> inPP(inProcess, p, q)))
+//@   ensures #spec result == (tyEqSeq(x.Param, y.Param) && tyEq(x.Return, y.Return))
+//@   ensures #memo result ==> forall(p, forall(q, inPP(inProcess, p, q) ==> old(inPP(inProcess, p, q)) || tyEq(p, q)))
+//@   ensures #mono forall(p, forall(q, old(inPP(inProcess, p, q)) ==> inPP(inProcess, p, q)))
+
+//@ func equalsObj
+//@   props C17 C01 C05 C07 C16
+//@   requires inProcess != nil && x != nil && y != nil && dynis(x, ObjTy) && dynis(y, ObjTy)
+//@   requires wfObj(x) && wfObj(y)
+//@   requires forall(i, 0, len(x.Fields), wfT(x.Fields[i].Val) && older(x.Fields[i].Val, x.Ty()))
+//@   requires forall(i, 0, len(y.Fields), wfT(y.Fields[i].Val))
+//@   requires #memo forall(p, forall(q, inPP(inProcess, p, q) ==> tyEq(p, q) || notyounger(x.Ty(), p)))
+//@   nopanic
+//@   modifies inProcess[*], allmaps(inProcess[0])
+//@   loop 1 invariant len(x.Fields) == len(y.Fields)
+//@   loop 1 invariant forall(k, 0, rangeindex+1, exists(j, 0, len(y.Fields), y.Fields[j].Name == x.Fields[k].Name && tyEq(x.Fields[k].Val, y.Fields[j].Val)))
+//@   loop 1 invariant forall(p, forall(q, inPP(inProcess, p, q) ==> old(inPP(inProcess, p, q)) || tyEq(p, q)))
+//@   loop 1 invariant forall(p, forall(q, old(inPP(inProcess, p, q)) ==> inPP(inProcess, p, q)))
+//@   ensures #spec result == tyEqObj(x, y)
+//@   ensures #memo result ==> forall(p, forall(q, inPP(inProcess, p, q) ==> old(inPP(inProcess, p, q)) || tyEq(p, q)))
+//@   ensures #mono forall(p, forall(q, old(inPP(inProcess, p, q)) ==> inPP(inProcess, p, q)))
+
+//@ entry Infer
+//@   props C12
